@@ -646,6 +646,11 @@ class RewriteSim:
                  "vars": rng.choice(["xyz", "abc", "pqrs", "xy"]), "max_len": 200}
             text = gen.valid_text(rng, g) if rng.random() < 0.85 else rng.choice(gen.CORPUS)
             cfg["source"] = "parser-grammar"
+        elif prop == "C09" and src < 0.12:
+            text = kind_tree_text(rng, rng.choice([1, 2, 2, 3]), rng.choice(["xyz", "ab", "x"]))
+            if rng.random() < 0.3:
+                text = text + " = " + kind_tree_text(rng, rng.choice([0, 1, 2]), "xyz")
+            cfg["source"] = "kind-pairs"
         elif src < 0.25:
             from mathy_core import problems
             name, kw = rng.choice(PROBLEM_GENS)
